@@ -16,3 +16,17 @@ def describe(ev, inv):
     if "wire" in e and len(e["wire"]) > 80:
         e["wire"] = e["wire"][:80] + ["..."]
     return "%s at %s" % (inv, json.dumps(e)[:700])
+
+
+def own_keyfn(ev, inv):
+    return "%s:%s:%s" % (inv, ev.get("ev", "?"), ev.get("kind", ev.get("where", "")))
+
+
+def check_pool(ctx, own_path, what):
+    """The decoder's handling of the byte pool while it works through the inputs of this run: a buffer released
+    twice (or one that was never handed out) is two owners of one array later on. The pool hook reports such a
+    release instead of executing it, so it is visible here and not as silent corruption."""
+    import os
+    if not os.path.exists(own_path) or os.path.getsize(own_path) == 0:
+        return
+    ctx.validate("OwnershipTrace", own_path, own_keyfn, describe=describe, only=["Inv_C20_"], timeout=1200, require_events=0)
